@@ -103,6 +103,23 @@ def _lit_regex_rule(lit, repl, prot=None):
     return real, ref, prot
 
 
+def _context_regex_rules():
+    """regular expressions that look at the text around the position: 'b' preceded by 'a' (look-behind), '1' at the very
+    beginning of the string (anchor), 'A' not followed by a space (look-ahead)"""
+    real = UnicodeToLatexConversionRule(RULE_REGEX, [(re.compile('(?<=a)b'), '\\\\Bafter'), (re.compile('^1'), '\\\\One'),
+                                                     (re.compile('A(?! )'), '\\\\Aa')])
+
+    def ref(s, i):
+        if s[i] == 'b' and i > 0 and s[i - 1] == 'a':
+            return (1, '\\Bafter')
+        if s[i] == '1' and i == 0:
+            return (1, '\\One')
+        if s[i] == 'A' and s[i + 1:i + 2] != ' ':
+            return (1, '\\Aa')
+        return None
+    return real, ref, None
+
+
 def _class_regex_rule(lo, hi, prot=None):
     """[lo-hi] single character -> <c> via a callable replacement"""
     real = UnicodeToLatexConversionRule(RULE_REGEX, [(re.compile('[%s-%s]' % (lo, hi)), lambda m: '<' + m.group() + '>')],
@@ -152,6 +169,7 @@ def rule_lists():
         'class_regex': [_class_regex_rule('0', '9'), _lit_regex_rule('a1', '\\never?'), _dict_rule(D1)],
         'regex_after_dict': [_dict_rule({ord('a'): '\\x'}), _lit_regex_rule('ab', '\\AB'), _lit_regex_rule('ba', '\\BA',
                                                                                                           prot='braces-after-macro')],
+        'context_regex': [_context_regex_rules(), _dict_rule({0xe9: "\\'e"})],
         'empty': [],
     }
 
@@ -392,7 +410,7 @@ def conditions(tier):
     T = 600 if quick else 3000
     N = 3 if quick else 4
     conds = []
-    REGEX_LISTS = ('lit_regex', 'class_regex', 'regex_after_dict')
+    REGEX_LISTS = ('lit_regex', 'class_regex', 'regex_after_dict', 'context_regex')
     lists = [k for k in rule_lists().keys() if k not in REGEX_LISTS]
     SM = [dict(t=x) for x in ('', 'a&b', 'aab', 'éa', 'ab1', '\x7f', 'x ', '--a', 'ba ')]
     # pairwise-ish cover of list x protection x policy x non_ascii_only (each list meets every protection and policy)
